@@ -57,6 +57,12 @@ theorem inv2_srcRet {cfg : Cfg} {s s' : State} (ev : _) (h1 : Inv1 cfg s) (hi : 
   obtain ⟨a1, a2, g1, d_ne, d_wait, d_full, d_end, u2, u4, u5⟩ := hi
   unfold_step at h <;> (repeat' split at h) <;> cases h <;> close_inv2
 
+theorem inv2_srcCancelErr {cfg : Cfg} {s s' : State} (w : _) (h1 : Inv1 cfg s) (hi : Inv2 cfg s)
+    (h : step good cfg s (.srcCancelErr w) = some s') : Inv2 cfg s' := by
+  obtain ⟨c1, t1a, t_set, t_ne, t_len, t_armed, t_fired, n1, n2, u0, u3, u1⟩ := h1
+  obtain ⟨a1, a2, g1, d_ne, d_wait, d_full, d_end, u2, u4, u5⟩ := hi
+  unfold_step at h <;> (repeat' split at h) <;> cases h <;> close_inv2
+
 theorem inv2_nextCall {cfg : Cfg} {s s' : State} (live : _) (h1 : Inv1 cfg s) (hi : Inv2 cfg s)
     (h : step good cfg s (.nextCall live) = some s') : Inv2 cfg s' := by
   obtain ⟨c1, t1a, t_set, t_ne, t_len, t_armed, t_fired, n1, n2, u0, u3, u1⟩ := h1
@@ -181,6 +187,7 @@ theorem inv2_step {cfg : Cfg} {s s' : State} {l : Label} (h1 : Inv1 cfg s) (hi :
     (h : step good cfg s l = some s') : Inv2 cfg s' := by
   cases l with
   | srcRet ev => exact inv2_srcRet ev h1 hi h
+  | srcCancelErr w => exact inv2_srcCancelErr w h1 hi h
   | nextCall live => exact inv2_nextCall live h1 hi h
   | ctxExpire => exact inv2_ctxExpire h1 hi h
   | tick d => exact inv2_tick d h1 hi h
